@@ -372,7 +372,7 @@ def main(args):
     rep = common.Report('C10', tier)
     rep.assumptions = ASSUMPTIONS
     rep.bounds = {'shapes': shapes, 'registries': registries(), 'templates': [t for t, n in TEMPLATES]}
-    deadline = time.time() + (330 if tier == 'quick' else common.THOROUGH_S)
+    deadline = time.time() + (common.QUICK_S if tier == 'quick' else common.THOROUGH_S)
 
     def progress(done, total, res):
         if args.verbose:
